@@ -104,3 +104,31 @@ Definition parser_1100 (p : str) : result tpi :=
 Definition put_weather_payload (w : option Z) : str := lit "00" ++ hexN 4 (word_of_opt w) ++ lit "01".
 Definition parser_0002 (p : str) : result (tempv * str) :=
   do t <- (if negb (Nat.eqb (List.length (slice 2 6 p)) 4) then Raise ValueError else hex_to_temp_s (slice 2 6 p)); Ok (t, skipn 6 p).
+
+(* Command.put_co2_level(dev, level) -> I|1298: 00 + hex_from_double(level) -- a whole number of ppm as four hex digits, None = 7FFF.
+   parser_1298 = parse_co2_level(payload[2:6]): 7FFF = no sensor; the top bit set = a sensor fault; otherwise the level *)
+Definition put_co2_payload (n : option Z) : str := lit "00" ++ hexN 4 (word_of_opt n).
+Inductive co2v := Co2None | Co2Fault | Co2Level (n : Z).
+Definition parser_1298 (p : str) : result co2v :=
+  let v := slice 2 6 p in
+  if negb (Nat.eqb (List.length v) 4) then Raise ValueError
+  else if str_eqb v (lit "7FFF") then Ok Co2None
+  else match int16 v with
+       | None => Raise ValueError
+       | Some n => if 0x8000 <=? n then Ok Co2Fault else Ok (Co2Level n)
+       end.
+
+(* Command.put_indoor_humidity(dev, h) -> I|12A0: 00 + hex_from_percent(h, high_res=False) -- whole percent as two hex digits, None = EF
+   (the byte enters as the encoder produced it, C04's codec).  parser_12a0 = parse_indoor_humidity(payload[2:]) on the short form: EF = no
+   sensor; F0..FF = a sensor fault; otherwise the byte / 100, which the parser ASSERTS to be at most 1.0 *)
+Definition byte_of_opt (b : option Z) : Z := match b with Some x => x | None => 0xEF end.
+Definition put_humidity_payload (b : option Z) : str := lit "00" ++ hexN 2 (byte_of_opt b).
+Inductive humv := HumNone | HumFault | HumPct (b : Z).
+Definition parser_12a0_short (p : str) : result humv :=
+  let v := slice 2 4 p in
+  if negb (Nat.eqb (List.length v) 2) then Raise ValueError
+  else if str_eqb v (lit "EF") then Ok HumNone
+  else match int16 v with
+       | None => Raise ValueError
+       | Some b => if 0xF0 <=? b then Ok HumFault else if b <=? 100 then Ok (HumPct b) else Raise AssertionError
+       end.
